@@ -114,7 +114,7 @@ CLAIMED = {
          'original, gradients as symbolic derivatives of polynomial losses over the Variables selected by wrt / DiffState. Proved for all inputs: each Variable gets the axis of its first '
          'matching filter; if vmap accepts a body then what it leaves in shared state is identical at every index (non-interference of the batchedness analysis), otherwise it is rejected; '
          'scan equals the Python loop for every body that does not write broadcast state, in any step order; the gradient lists exactly the selected Variables and deriv is the derivative; jnp.moveaxis(x, axis, 0) / moveaxis(x, 0, axis) on the state are the inverse transpositions to_front / from_front for every rank and axis. '
-         'Tied to /repo per run: random modules, StateAxes, non-square shapes, integer bodies, lengths, reverse, polynomial losses; outputs, final Variables and gradients compared in Coq '
+         'Arguments that alias one Variable (Model/Alias.v): the call is accepted exactly when no Variable is reached under two different specifications, and then every occurrence carries the one specification it is treated under. Tied to /repo per run: random modules, StateAxes, non-square shapes, integer bodies, lengths, reverse, polynomial losses; outputs, final Variables and gradients compared in Coq '
          'and against the real eager per-index loop / Python loop / jax.grad of the functional form; aliasing and out_axes rejections by probes.',
     note='Trusted: Coq kernel, vm_compute, harness, jaxcompat, jax.vmap / lax.scan / jax.grad (idealised as map / fold / symbolic derivative). Axis-group Variables are represented by their '
          'slices: the moveaxis arithmetic is tied to the code by the correspondence only. Graph split/merge around the transforms is C03/C04. Known finding F22: writes to broadcast state '
